@@ -30,3 +30,271 @@ macro_rules! must_not_reach {
         assert!(false, concat!("OBLU:", $id))
     };
 }
+
+// ================================================================================================
+// C12 wrapper-layer harness templates (used from sync/atomic/{int,bool,ptr}.rs).
+// Each harness runs the REAL public loom method with rt::Atomic<T> replaced by the sequential-cell
+// contract model, runs the same call on the std atomic, and obliges equal results and equal final
+// content for ALL operand values and every valid ordering.
+// ================================================================================================
+
+/// Attributes + prologue shared by all C12 wrapper harnesses.
+#[doc(hidden)]
+#[macro_export]
+macro_rules! c12_harness {
+    ($name:ident, $body:block) => {
+        #[kani::proof]
+        #[kani::unwind(12)]
+        #[kani::stub(std::hash::RandomState::new, crate::rt::verif_kani::fixed_random_state)]
+        #[kani::stub(crate::rt::Atomic::new, crate::rt::Atomic::new_model)]
+        #[kani::stub(crate::rt::Atomic::load, crate::rt::Atomic::load_model)]
+        #[kani::stub(crate::rt::Atomic::unsync_load, crate::rt::Atomic::unsync_load_model)]
+        #[kani::stub(crate::rt::Atomic::store, crate::rt::Atomic::store_model)]
+        #[kani::stub(crate::rt::Atomic::rmw, crate::rt::Atomic::rmw_model)]
+        #[kani::stub(crate::rt::Atomic::with_mut, crate::rt::Atomic::with_mut_model)]
+        fn $name() {
+            // trivial installed execution: only read by `location!()`
+            let mut ex = crate::rt::verif_kani::exec_with(
+                std::mem::ManuallyDrop::into_inner(crate::rt::verif_kani::zero_set()),
+                4,
+            );
+            crate::rt::verif_kani::with_ctx(&mut ex, || $body);
+            kani::cover!(true, "c12_wrap");
+        }
+    };
+}
+
+/// Ordering generators (valid orderings per operation class, as std requires).
+#[doc(hidden)]
+#[macro_export]
+macro_rules! c12_any_rmw_order {
+    () => {
+        match kani::any::<u8>() {
+            0 => std::sync::atomic::Ordering::Relaxed,
+            1 => std::sync::atomic::Ordering::Acquire,
+            2 => std::sync::atomic::Ordering::Release,
+            3 => std::sync::atomic::Ordering::AcqRel,
+            _ => std::sync::atomic::Ordering::SeqCst,
+        }
+    };
+}
+/// Valid load orderings.
+#[doc(hidden)]
+#[macro_export]
+macro_rules! c12_any_load_order {
+    () => {
+        match kani::any::<u8>() {
+            0 => std::sync::atomic::Ordering::Relaxed,
+            1 => std::sync::atomic::Ordering::Acquire,
+            _ => std::sync::atomic::Ordering::SeqCst,
+        }
+    };
+}
+/// Valid store orderings.
+#[doc(hidden)]
+#[macro_export]
+macro_rules! c12_any_store_order {
+    () => {
+        match kani::any::<u8>() {
+            0 => std::sync::atomic::Ordering::Relaxed,
+            1 => std::sync::atomic::Ordering::Release,
+            _ => std::sync::atomic::Ordering::SeqCst,
+        }
+    };
+}
+
+/// `op(&self, val, order) -> T` (swap, fetch_*).
+#[doc(hidden)]
+#[macro_export]
+macro_rules! c12_rmw1 {
+    ($name:ident, $loom:ty, $std:ty, $any:expr, $op:ident) => {
+        $crate::c12_harness!($name, {
+            let v = $any;
+            let x = $any;
+            let o = $crate::c12_any_rmw_order!();
+            let a = <$loom>::new(v);
+            let r = a.$op(x, o);
+            let fin = a.load(std::sync::atomic::Ordering::Relaxed);
+            std::mem::forget(a);
+            let s = <$std>::new(v);
+            let rs = s.$op(x, o);
+            $crate::oblige!("C12.wrap.return_value_equals_std", r == rs);
+            $crate::oblige!("C12.wrap.final_content_equals_std", fin == s.load(std::sync::atomic::Ordering::Relaxed));
+        });
+    };
+}
+
+/// load / store.
+#[doc(hidden)]
+#[macro_export]
+macro_rules! c12_load_store {
+    ($name:ident, $loom:ty, $std:ty, $any:expr) => {
+        $crate::c12_harness!($name, {
+            let v = $any;
+            let x = $any;
+            let lo = $crate::c12_any_load_order!();
+            let so = $crate::c12_any_store_order!();
+            let a = <$loom>::new(v);
+            let s = <$std>::new(v);
+            $crate::oblige!("C12.wrap.load_after_new_equals_std", a.load(lo) == s.load(lo));
+            a.store(x, so);
+            s.store(x, so);
+            let fin = a.load(lo);
+            std::mem::forget(a);
+            $crate::oblige!("C12.wrap.load_after_store_equals_std", fin == s.load(lo));
+            $crate::oblige!("C12.wrap.load_returns_last_store", fin == x);
+        });
+    };
+}
+
+/// compare_exchange / compare_exchange_weak.
+#[doc(hidden)]
+#[macro_export]
+macro_rules! c12_cas {
+    ($name:ident, $loom:ty, $std:ty, $any:expr, $op:ident) => {
+        $crate::c12_harness!($name, {
+            let v = $any;
+            let cur = $any;
+            let new = $any;
+            let so = $crate::c12_any_rmw_order!();
+            let fo = $crate::c12_any_load_order!();
+            let a = <$loom>::new(v);
+            let r = a.$op(cur, new, so, fo);
+            let fin = a.load(std::sync::atomic::Ordering::Relaxed);
+            std::mem::forget(a);
+            let s = <$std>::new(v);
+            // std's strong CAS is the oracle for both (loom's weak variant never fails spuriously,
+            // which the weak contract allows)
+            let rs = s.compare_exchange(cur, new, so, fo);
+            $crate::oblige!("C12.wrap.ok_err_shape_and_payload_equal_std", r == rs);
+            $crate::oblige!("C12.wrap.final_content_equals_std", fin == s.load(std::sync::atomic::Ordering::Relaxed));
+        });
+    };
+}
+
+/// compare_and_swap (deprecated in std, still the oracle).
+#[doc(hidden)]
+#[macro_export]
+macro_rules! c12_cas_old {
+    ($name:ident, $loom:ty, $std:ty, $any:expr) => {
+        $crate::c12_harness!($name, {
+            let v = $any;
+            let cur = $any;
+            let new = $any;
+            let o = $crate::c12_any_rmw_order!();
+            let a = <$loom>::new(v);
+            let r = a.compare_and_swap(cur, new, o);
+            let fin = a.load(std::sync::atomic::Ordering::Relaxed);
+            std::mem::forget(a);
+            let s = <$std>::new(v);
+            #[allow(deprecated)]
+            let rs = s.compare_and_swap(cur, new, o);
+            $crate::oblige!("C12.wrap.return_value_equals_std", r == rs);
+            $crate::oblige!("C12.wrap.final_content_equals_std", fin == s.load(std::sync::atomic::Ordering::Relaxed));
+        });
+    };
+}
+
+/// fetch_update with a symbolic closure family. `$f` is `|k, x, v| -> Option<T>`.
+#[doc(hidden)]
+#[macro_export]
+macro_rules! c12_fetch_update {
+    ($name:ident, $loom:ty, $std:ty, $any:expr, $f:expr) => {
+        $crate::c12_harness!($name, {
+            let v = $any;
+            let x = $any;
+            let k: u8 = kani::any();
+            let so = $crate::c12_any_rmw_order!();
+            let fo = $crate::c12_any_load_order!();
+            let f = $f;
+            let a = <$loom>::new(v);
+            let r = a.fetch_update(so, fo, |cur| f(k, x, cur));
+            let fin = a.load(std::sync::atomic::Ordering::Relaxed);
+            std::mem::forget(a);
+            let s = <$std>::new(v);
+            let rs = s.fetch_update(so, fo, |cur| f(k, x, cur));
+            $crate::oblige!("C12.wrap.ok_err_shape_and_payload_equal_std", r == rs);
+            $crate::oblige!("C12.wrap.final_content_equals_std", fin == s.load(std::sync::atomic::Ordering::Relaxed));
+        });
+    };
+}
+
+/// with_mut (std oracle: get_mut), into_inner, unsync_load.
+#[doc(hidden)]
+#[macro_export]
+macro_rules! c12_owned {
+    ($name:ident, $loom:ty, $std:ty, $any:expr, with_mut) => {
+        $crate::c12_harness!($name, {
+            let v = $any;
+            let x = $any;
+            let mut a = <$loom>::new(v);
+            let seen = a.with_mut(|p| {
+                let old = *p;
+                *p = x;
+                old
+            });
+            let fin = a.load(std::sync::atomic::Ordering::Relaxed);
+            std::mem::forget(a);
+            let mut s = <$std>::new(v);
+            let p = s.get_mut();
+            let seen_s = *p;
+            *p = x;
+            $crate::oblige!("C12.wrap.with_mut_sees_content", seen == seen_s);
+            $crate::oblige!("C12.wrap.final_content_equals_std", fin == s.load(std::sync::atomic::Ordering::Relaxed));
+        });
+    };
+    ($name:ident, $loom:ty, $std:ty, $any:expr, into_inner) => {
+        $crate::c12_harness!($name, {
+            let v = $any;
+            let x = $any;
+            let o = $crate::c12_any_store_order!();
+            let a = <$loom>::new(v);
+            let s = <$std>::new(v);
+            if kani::any() {
+                a.store(x, o);
+                s.store(x, o);
+            }
+            let u = unsafe { a.unsync_load() };
+            $crate::oblige!("C12.wrap.unsync_load_equals_std_content", u == s.load(std::sync::atomic::Ordering::Relaxed));
+            $crate::oblige!("C12.wrap.into_inner_equals_std", a.into_inner() == s.into_inner());
+        });
+    };
+}
+
+/// Attribute bundle: replace the panic-report builder by the "no violation may be reported" model,
+/// and the clock leaf functions (join, ahead, is_seen_by_current) by their contract models
+/// (each proved equal to the real function: s_vv_models_agree, s_firstseen).
+#[doc(hidden)]
+#[macro_export]
+macro_rules! with_fire_forbidden {
+    ($(#[$m:meta])* fn $name:ident() $body:block) => {
+        $(#[$m])*
+        #[kani::stub(std::hash::RandomState::new, crate::rt::thread::verif_kani::fixed_random_state)]
+        #[kani::stub(crate::rt::location::panic, crate::rt::location::verif_kani::panic_model)]
+        #[kani::stub(crate::rt::location::PanicBuilder::location, crate::rt::location::PanicBuilder::location_model)]
+        #[kani::stub(crate::rt::location::PanicBuilder::thread, crate::rt::location::PanicBuilder::thread_model)]
+        #[kani::stub(crate::rt::location::PanicBuilder::fire, crate::rt::location::PanicBuilder::fire_forbidden)]
+        #[kani::stub(crate::rt::vv::VersionVec::join, crate::rt::vv::VersionVec::join_model)]
+        #[kani::stub(crate::rt::vv::VersionVec::ahead, crate::rt::vv::VersionVec::ahead_model)]
+        #[kani::stub(crate::rt::atomic::FirstSeen::is_seen_by_current, crate::rt::atomic::FirstSeen::is_seen_by_current_model)]
+        fn $name() $body
+    };
+}
+
+/// Attribute bundle: the panic-report builder is expected to fire.
+#[doc(hidden)]
+#[macro_export]
+macro_rules! with_fire_expected {
+    ($(#[$m:meta])* fn $name:ident() $body:block) => {
+        $(#[$m])*
+        #[kani::stub(std::hash::RandomState::new, crate::rt::thread::verif_kani::fixed_random_state)]
+        #[kani::stub(crate::rt::location::panic, crate::rt::location::verif_kani::panic_model)]
+        #[kani::stub(crate::rt::location::PanicBuilder::location, crate::rt::location::PanicBuilder::location_model)]
+        #[kani::stub(crate::rt::location::PanicBuilder::thread, crate::rt::location::PanicBuilder::thread_model)]
+        #[kani::stub(crate::rt::location::PanicBuilder::fire, crate::rt::location::PanicBuilder::fire_expected)]
+        #[kani::stub(crate::rt::vv::VersionVec::join, crate::rt::vv::VersionVec::join_model)]
+        #[kani::stub(crate::rt::vv::VersionVec::ahead, crate::rt::vv::VersionVec::ahead_model)]
+        #[kani::stub(crate::rt::atomic::FirstSeen::is_seen_by_current, crate::rt::atomic::FirstSeen::is_seen_by_current_model)]
+        fn $name() $body
+    };
+}
